@@ -214,7 +214,7 @@ class _RelativeLossMixin:
         return self._func(
             y_true,
             y_pred,
-            loss_function=self._relative_func,
+            relative_loss_function=self.relative_loss_function,
         )
 
 
